@@ -14,6 +14,8 @@
  *                                      agree, otherwise " NEWTERM=<E|hex>" is appended
  *   decvn <leaf> <hex> <hex next>      as decv through lyd_value_validate only, with the bytes <next>
  *                                      placed in memory right after the value (not counted in its length)
+ *   decvx <leaf> <hex>                 as decv through lyd_value_validate only, the value in a heap block of
+ *                                      exactly its length (no terminator): any read past the value is seen by ASan
  *   cmp <leaf> <hex a> <hex b>         term a created; lyd_value_compare(a, b) -> 0 equal | 1 differ | E;
  *                                      lyd_compare_single() of the two terms must agree (else " SINGLE=<rc>")
  *   sort <L-leaf> <hex a> <hex b>      both inserted (a first) into the leaf-list; canonical values in
@@ -133,6 +135,23 @@ main(void)
             free(first);
             free(buf);
             free(nx);
+            free(s);
+        } else if (!strcmp(comp, "decvx") && (c.nf >= 3)) {
+            size_t len;
+            char *s = vunhex(c.f[2], &len), *exact = malloc(len ? len : 1);
+            const struct lysc_node *schema = lys_find_child(NULL, mod, c.f[1], 0, LYS_LEAF, 0);
+            const char *canon = NULL;
+
+            memcpy(exact, s, len);
+            if (!schema) {
+                printf("?");
+            } else if (lyd_value_validate(ctx, schema, exact, len, NULL, NULL, &canon)) {
+                printf("E");
+            } else {
+                put_str(canon);
+                lydict_remove(ctx, canon);
+            }
+            free(exact);
             free(s);
         } else if (!strcmp(comp, "cmp") && (c.nf >= 4)) {
             size_t la, lb;
